@@ -11,4 +11,45 @@ CHECKS = {
           "(ExtrOcamlBasic), the OCaml/Go/Python harness; Go's map iteration order is sampled, not enumerated"),
     design="DESIGN.md section 7 C19"),
 }
+COMMON_NOTE = ("trusts the Coq kernel, the hand-written Gallina model of the compiler (Compiler/*.v, byte-exact with the Go compiler on the "
+               "run's corpus), constgen, extraction (ExtrOcamlBasic), the OCaml/Go/Python harness")
+
+CHECKS.update({
+ "C06": dict(
+    technique="Coq model of lexer/parser/emitter + differential correspondence; totality observed under recover and watchdog",
+    text=("The executable Coq model of the whole compiler is run beside the real compiler on every prefix / deletion / token insertion of "
+          "valid files, random bytes and size-scaling families; the outcome class (returns a result or an error; never panics, hangs or "
+          "blocks) is the oracle on the implementation and must agree with the model. The unbounded totality theorem over the model is "
+          "stated in Properties/C06.v; what is proved so far is listed there (partial)."),
+    note=COMMON_NOTE + "; wall-clock growth is measured, not proved", design="DESIGN.md section 7 C06"),
+ "C07": dict(
+    technique="Coq model of the emitter's source map + correspondence; per-entry character oracle on the real tables",
+    text=("Fragments are the SourceMap.Add calls of the model, validated against the real tables on the same run; for every offset of every "
+          "fragment the template and the generated code must hold the same character (UTF-16 units), and every fragment token of the real "
+          "lexer must be covered."),
+    note=COMMON_NOTE, design="DESIGN.md section 7 C07"),
+ "C10": dict(
+    technique="Coq model of lexer/parser + correspondence; fault-injection oracle on the real compiler",
+    text=("One fault operator per documented rule is inserted at random valid positions of generated templates; the real compiler (both the "
+          "language-server and the command-line path) must refuse each with a positional error inside the file; every error reported on the "
+          "byte-level corpus must be located; the model must agree on acceptance and position."),
+    note=COMMON_NOTE, design="DESIGN.md section 7 C10"),
+ "C11": dict(
+    technique="Coq model of the outer lexer and root emitter + correspondence; structural oracle on generated files",
+    text=("Files interleaving Go declarations, imports in every layout and templates are generated; the expected generated file is computed "
+          "structurally (lines verbatim and in order, imports hoisted and de-duplicated, signatures exact) and compared with the real output, "
+          "which must also equal the model's."),
+    note=COMMON_NOTE, design="DESIGN.md section 7 C11"),
+ "C15": dict(
+    technique="Coq model as the single deterministic reference + correspondence; repeated / concurrent / cross-path compilation",
+    text=("Every input is compiled through Compose and Generate, in a second process, three times from 16 goroutines in permuted order, and "
+          "through ParseFile; all results must be identical to each other and to the output of the (functional, hence deterministic) model; "
+          "pairs of files differing in one template must leave sibling functions unchanged."),
+    note=COMMON_NOTE + "; absence of package-level mutable state is observed, not proved", design="DESIGN.md section 7 C15"),
+ "C16": dict(
+    technique="Coq model of SourceMap (Compiler/SrcMap.v) + correspondence; exhaustive per-entry oracle on the real tables",
+    text=("Every entry of both tables of every accepted file must be in bounds in both texts, the two directions must be mutually inverse, "
+          "and translation must be strictly increasing inside each fragment (fragments = Add calls of the corresponding model)."),
+    note=COMMON_NOTE, design="DESIGN.md section 7 C16"),
+})
 NOT_YET = {}
